@@ -110,10 +110,13 @@ def build_shim():
 
 
 def lean_build(targets):
-    """lake build of the given modules (plus the driver). Returns (ok, log)."""
+    """lake build of the driver, then of the given modules. Returns (ok, log).
+    The driver is built first and on its own: if a Props module no longer compiles, lake would stop before
+    re-linking `rmodel`, and a stale driver would then be compared with the implementation."""
     with build_lock("lake"):
-        rc, out = sh(["lake", "build"] + list(targets) + ["rmodel"], cwd=LEAN, timeout=3600)
-    return rc == 0, out
+        rc0, out0 = sh(["lake", "build", "rmodel"], cwd=LEAN, timeout=3600)
+        rc, out = sh(["lake", "build"] + list(targets), cwd=LEAN, timeout=3600)
+    return rc0 == 0 and rc == 0, out0 + out if rc0 != 0 else out
 
 
 def lean_sources_for(module):
